@@ -132,6 +132,8 @@ pub struct Config {
     pub proxy_v6: Ipv6Addr,
     /// probability (per mille) of 1–2 extra yields before a spawned task's first poll
     pub spawn_yield: u32,
+    /// probability (per mille) of 1-3 yields before an asynchronous lock (tokio::sync::{RwLock, Mutex}) is acquired
+    pub lock_yield: u32,
     /// deliver ICMP port-unreachable as ECONNREFUSED on connected UDP sockets
     pub udp_icmp: bool,
 }
@@ -145,6 +147,7 @@ impl Default for Config {
             proxy_v4: Ipv4Addr::new(10, 0, 0, 1),
             proxy_v6: "fd00::1".parse().unwrap(),
             spawn_yield: 0,
+            lock_yield: 0,
             udp_icmp: false,
         }
     }
